@@ -35,6 +35,8 @@ def _h1_cfgs():
                 for wk in (None, "float64", "int64"):
                     out.append({"n": n, "m": m, "bins": kind, "weights": wk, "keep_missed": True})
     out.append({"n": 3, "m": 2, "bins": "gapped", "weights": "float64", "keep_missed": True})
+    for dropna in (True, False):
+        out.append({"n": 4, "m": 2, "bins": "fixed", "weights": "float64", "keep_missed": True, "layout": "transposed", "dropna": dropna})
     out.append({"n": 2, "m": 3, "bins": "gapped", "weights": None, "keep_missed": False})
     return out
 
@@ -47,11 +49,18 @@ class _h1:
 
     def inputs(b):
         binning = make_binning(b, "B", b.cfg.bins, b.cfg.m)
-        data = b.array("d", (b.cfg.n,))
+        layout = getattr(b.cfg, "layout", None)
+        if layout == "transposed":      # a (2, n/2) view of a (n/2, 2) buffer: element order differs from memory order
+            data = b.array("d", (b.cfg.n // 2, 2)).T
+        else:
+            data = b.array("d", (b.cfg.n,))
         kw = dict(data=data, bins=binning, keep_missed=b.cfg.keep_missed)
+        if hasattr(b.cfg, "dropna"):
+            kw["dropna"] = b.cfg.dropna
         if b.cfg.weights:
-            kw["weights"] = b.array("w", (b.cfg.n,), b.cfg.weights)
-            nonneg(b, kw["weights"])         # requires: weights >= 0 (C18: negative contents are refused)
+            w = b.array("w", (b.cfg.n // 2, 2) if layout == "transposed" else (b.cfg.n,), b.cfg.weights)
+            kw["weights"] = w.T if layout == "transposed" else w
+            nonneg(b, w)         # requires: weights >= 0 (C18: negative contents are refused)
         return kw
 
     known = {
